@@ -541,7 +541,6 @@ def odd_entries(out, r, h, tier):
 
 # ------------------------------------------------------------------ file outputs
 def file_roundtrips(out, tier, r, h):
-    findings = {f["class"]: f for f in vlib.known_findings("C06")}
     contents = [b"", b"x", b"#!/bin/sh\necho hi\n", b"\x00\xff" * 50, b"ab" * 20000]
     if tier != "quick":
         contents += [bytes(r.below(256) for _ in range(r.below(3000))) for _ in range(40)]
@@ -552,14 +551,15 @@ def file_roundtrips(out, tier, r, h):
             dests = [("absent", ("A",)), ("noparent", ("P",)), ("same", ("F", c, 0o644)), ("same+x", ("F", c, 0o755)),
                      ("modified", ("F", other, 0o644)), ("modified+x", ("F", other, 0o755)),
                      ("truncated", ("F", c[:len(c) // 2], md)), ("directory", ("D", [])),
-                     ("directory-nonempty", ("D", [("f", b"f", b"x", 0o644)]))]
+                     ("directory-nonempty", ("D", [("f", b"f", b"x", 0o644)])),
+                     ("directory-deep", ("D", [("d", b"s", [("f", b"g", c, md), ("d", b"e", [])]), ("l", b"ln", b"s"), ("f", b"tool", other, 0o755)]))]
             for k, d in dests:
                 cases.append((c, md, k, d))
     lines = ["file\t%s\t%s\t%o\t%s\t-" % (ALGOS[i % 2], hx(c), md, dest_field(d)) for i, (c, md, k, d) in enumerate(cases)]
     mlines = ["file\t%s\t%d\t%s\t0" % (hx(sha16(c)), 1 if md & 0o111 else 0, dest_field(d, True)) for c, md, k, d in cases]
     impl = run_harness(h, lines)
     model = run_model(mlines)
-    st = {"cases": len(cases), "exact": 0, "parent_missing_error": 0, "directory_at_path_error": 0,
+    st = {"cases": len(cases), "exact": 0, "exact_over_directory": 0,
           "model_mismatches": 0, "exec_flag_recorded": 0, "exec_bit_restored_over_other_bit": 0}
     nontriv = set()
     for i, (c, md, k, d) in enumerate(cases):
@@ -582,23 +582,14 @@ def file_roundtrips(out, tier, r, h):
                     cls, show(after), mcls, show(ml)), dict(rp, correspondence="Tree.file_write/file_load vs FileOutputHandler"), no_input=True)
         if cls == "ok" and after == before:
             st["exact"] += 1
+            st["exact_over_directory"] += d[0] == "D"
             st["exec_bit_restored_over_other_bit"] += d[0] == "F" and int(g["prior_exec"]) != x
             continue
-        # the oracle failed on the implementation: evaluate the guard of C06_file_roundtrip_partial (file_restore_possible) on this
-        # input.  The exec bit is part of the oracle without a guard (C06-F1 repaired: a wrong bit is a violation).
-        if cls == "error" and d[0] == "P" and g["possible"] == "0" and "file-parent-missing" in findings:
-            st["parent_missing_error"] += 1
-            out.known(findings["file-parent-missing"]["id"],
-                      "class=file-parent-missing restoring a file output whose parent directory is absent fails (%s); the target is re-executed" %
-                      unhx(f[5]).decode("latin-1").rsplit(": ", 1)[-1])
-        elif cls == "error" and d[0] == "D" and g["possible"] == "0" and "file-directory-at-path" in findings:
-            st["directory_at_path_error"] += 1
-            out.known(findings["file-directory-at-path"]["id"],
-                      "class=file-directory-at-path restoring a file output over a directory sitting at its path fails (%s)" %
-                      unhx(f[5]).decode("latin-1").rsplit(": ", 1)[-1])
-        else:
-            out.violation("file output not restored exactly from prior state '%s': %s, cached %s, restored %s" % (
-                k, cls, show(before), show(after)), rp)
+        # the oracle failed on the implementation.  C06_file_roundtrip carries no guard on the prior state of the path any more
+        # (C06-F1 exec bit, C06-F2 missing parent, C06-F3 directory at the path are repaired): every prior state is judged alike,
+        # anything but the cached file (content + exec bit) is a violation.
+        out.violation("file output not restored exactly from prior state '%s': %s, cached %s, restored %s" % (
+            k, cls, show(before), show(after)), rp)
     return st, nontriv
 
 
@@ -677,6 +668,7 @@ def cli_run(tier, r):
     jobs.append(("hang", n + 2, "absent", [("f", b"a", b"only file", 0o644)], None))
     jobs.append(("file", n + 3, "same-content-noexec", None, None))     # the bytes are in place, only the exec bit is gone
     jobs.append(("file", n + 4, "modified-noexec", None, None))
+    jobs.append(("file", n + 5, "directory", None, None))               # a directory (with content) sits at the file output's path
 
     def one(job):
         kind, i, state, tree, dest = job
@@ -712,6 +704,8 @@ def cli_run(tier, r):
                 os.chmod(target, 0o644)
             elif state == "modified-noexec":
                 os.unlink(target); open(target, "w").write("stale\n"); os.chmod(target, 0o644)
+            elif state == "directory":
+                os.unlink(target); os.makedirs(os.path.join(target, "sub")); open(os.path.join(target, "sub", "stale"), "w").write("stale\n")
             else:
                 shutil.rmtree(os.path.join(ws, "gen"))
         elif kind == "hang":
